@@ -647,6 +647,8 @@ def check_C12(A, R, tier):
     # records are only ever compared through the configured comparison (otherwise 'unchanged' is judged textually)
     from rules_compare import rule_no_textual_record_compare
     rule_no_textual_record_compare(A, R, "R12.c")
+    # R12.p: jobs nobody can need are pruned completely at startup (otherwise they are invalidated on every start)
+    rule_prune_fixpoint(A, R, "R12.p")
     R.explanation = ("Writer/reader agreement (necessary for the fixpoint): per key class the template new_history writes and the templates "
                      "the next evaluation looks up are identical, and the quantity written (strategy input list of K; history_output of A; "
                      "history_output of K) is of the same provenance class as the quantity the reader compares the record with.")
@@ -990,3 +992,111 @@ def closure_env(A, I, body, st):
             fields.append(TOP)
     st.heap[("cloenv0",)] = adt("closure:" + body.name, {0: tuple(fields)})
     return ref(("cloenv0",), ())
+
+
+# =============================================================================================
+# R12.p: startup pruning reaches its fixpoint (an Ephemeral nobody can need must not make its upstreams run each time)
+
+def has_neighbour_predicates(A):
+    """local bool functions that answer 'does this job have a neighbour?': true iff the first iterator step yields"""
+    from protocol import forced_analysis
+    out = set()
+
+    def forced_next(some):
+        def f(I, state, frame, bi, t, args, span):
+            import models
+            res = models.next_common(I, state, frame, bi, t, args, span)
+            keep = []
+            for (rv, st) in res:
+                if rv[0] == "adt":
+                    vs = dict(rv[2])
+                    if some and 1 in vs:
+                        keep.append((rv, st))
+                    if not some and 0 in vs:
+                        keep.append((rv, st))
+            return keep
+        return f
+    for b in A.evaluator_methods():
+        if b.locals[0]["s"] != "bool" or b.vis == "Public" or len(b.blocks) > 12:
+            continue
+        rs = []
+        for some in (True, False):
+            try:
+                I, fr, out_, col = forced_analysis(A, b, {"std::iter::Iterator::next": forced_next(some)})
+            except Exception:
+                rs = None
+                break
+            rv = out_.locals.get((fr.fid, 0)) if out_ is not None else None
+            rs.append(set(c[0] for c in rv[2]) if (rv is not None and rv[0] == "fin") else None)
+        if rs == [{1}, {0}]:
+            out.add(b.name)
+    return out
+
+
+def rule_prune_fixpoint(A, R, rule):
+    from protocol import forced_analysis
+    from interp import State
+    from domain import ref, TRUE
+    C = A.classes()
+    cleanup_kinds = set(A.kind_of(s) for s in C["CleanupOffered"])
+    prune_fns = set()
+    for st in A.startup_runs():
+        for v in st.by_kind("dag_remove_node"):
+            prune_fns.add(v["fn"])
+    R.floor(rule, "startup functions that take jobs out of the graph", len(prune_fns), 1)
+    hn = has_neighbour_predicates(A)
+    R.info["has_neighbour_predicates"] = sorted(short(x) for x in hn)
+    overrides = dict((n, (lambda I_, st_, fr_, bi_, t_, a_, sp_: [(TRUE, st_)])) for n in hn)
+    init = dict((A.kind_of(s), s) for s in C["Init"])
+    for fn in sorted(prune_fns):
+        closures = A.facts.closures_of(fn)
+        good = []
+        for cb in closures:
+            if cb.arg_count != 2 or cb.locals[0]["s"] != "bool":
+                continue
+            res = {}
+            res_plain = {}
+            for ek in sorted(init):
+                for dk in sorted(cleanup_kinds):
+                    st = State()
+                    env = closure_env(A, None, cb, st)
+                    sym = ("cand", cb.name)
+                    from domain import key as mkkey
+                    st.heap[("candarg",)] = mkkey(sym, ["cand"])
+                    cfgd = dict(label="PRUNE", cell_init={"cand": fin(A.L.jobstate, [init[ek]]),
+                                                          "nbr:Outgoing:cand": fin(A.L.jobstate, [init[dk]])},
+                                default_states=fin(A.L.jobstate, C["Init"]))
+                    try:
+                        def prep(I_, sym=sym):
+                            I_.sym_info[sym] = (frozenset(["cand"]), None)
+                        I, fr, out_, col = forced_analysis(A, cb, overrides, cfgd=cfgd, args={1: env, 2: ref(("candarg",), ())}, state=st,
+                                                           prepare=prep)
+                    except Exception:
+                        res = None
+                        break
+                    rv = out_.locals.get((fr.fid, 0)) if out_ is not None else None
+                    res[(ek, dk)] = set(c[0] for c in rv[2]) if (rv is not None and rv[0] == "fin") else {0, 1}
+                    # the same without assuming anything about the neighbourhood: is the job kind what decides?
+                    st2 = State()
+                    env2 = closure_env(A, None, cb, st2)
+                    st2.heap[("candarg",)] = mkkey(sym, ["cand"])
+                    try:
+                        I2, fr2, out2, col2 = forced_analysis(A, cb, {}, cfgd=cfgd, args={1: env2, 2: ref(("candarg",), ())}, state=st2, prepare=prep)
+                        rv2 = out2.locals.get((fr2.fid, 0)) if out2 is not None else None
+                        res_plain[(ek, dk)] = set(c[0] for c in rv2[2]) if (rv2 is not None and rv2[0] == "fin") else {0, 1}
+                    except Exception:
+                        res_plain[(ek, dk)] = {0, 1}
+                if res is None:
+                    break
+            if res is None:
+                continue
+            rejects_others = all(res_plain[(ek, dk)] == {0} for (ek, dk) in res_plain if ek not in cleanup_kinds)
+            accepts_chain = all(1 in res[(ek, dk)] for (ek, dk) in res if ek in cleanup_kinds)
+            if rejects_others:
+                good.append((cb.name, accepts_chain))
+        R.ob(rule, "%s | the pruning candidates are selected by a predicate on the job kind" % short(fn), bool(good),
+             detail="no filter closure that rejects every job that is not of the cleanup (Ephemeral) kind")
+        for (cn, acc) in good:
+            R.ob(rule, "%s | an Ephemeral whose direct downstreams are all Ephemerals is a pruning candidate" % short(fn), acc,
+                 detail="the candidate predicate rejects an Ephemeral that has (only Ephemeral) downstreams: a dangling chain of Ephemerals "
+                        "is then only pruned at its end and its inner members are re-evaluated on every start")
